@@ -288,10 +288,7 @@ Definition handle (st : state) (ts : list tok) : state * list tok :=
             let c := mkCfg conn (zb micro) (zb ui) in
             let rq := filter_some' (map parse_request reqs) in
             if is_sym "read" cmd then (st, print_result (run_read c (st_db st) (parse_peer gs [] [] []) rq))
-            else match read_build c (parse_requested_tags (st_db st) RwRead rq) with
-                 | Ok ps => (st, sym "plan" :: flat_map print_packet ps)
-                 | Err e => (st, [sym "exc"; TInt (exn_code e)])
-                 end
+            else (st, sym "plan" :: flat_map print_packet (read_build c (parse_requested_tags (st_db st) RwRead rq)))
         | _ => (st, [sym "ERR"; sym "args"])
         end
       else if is_sym "write" cmd || is_sym "wplan" cmd then
@@ -305,10 +302,7 @@ Definition handle (st : state) (ts : list tok) : state * list tok :=
             if is_sym "write" cmd then (st, print_result (run_write enc_body c (st_db st) (parse_peer gs [] [] []) tvs))
             else
               let qs := parse_requested_tags (st_db st) RwWrite (map fst tvs) in
-              match write_build enc_body c (combine qs (map snd tvs)) with
-              | Ok (ps, _) => (st, sym "plan" :: flat_map print_packet ps)
-              | Err e => (st, [sym "exc"; TInt (exn_code e)])
-              end
+              (st, sym "plan" :: flat_map print_packet (fst (write_build enc_body c (combine qs (map snd tvs)))))
         | _ => (st, [sym "ERR"; sym "args"])
         end
       else (st, [sym "ERR"; sym "badcmd"])
